@@ -223,6 +223,7 @@ def run(ctx: Ctx):
         confs.append({**base, **extra})
     from .. import xfailfam
     xfailfam.check(ctx, "C04")
+    xfailfam.check_stacks(ctx, "C04", 12 if not ctx.thorough else 150)
     # the approval loop over several test files vs Model/Session.v
     from .. import sessloop
     sessloop.check_part(ctx, 36 if not ctx.thorough else 500, "C04")
@@ -281,7 +282,7 @@ def replay(ctx: Ctx, data):
     if isinstance(data.get("case"), dict) and data["case"].get("kind") == "sessloop":
         from .. import sessloop
         return sessloop.replay_case(data["case"])
-    if data["case"].get("kind") == "xfail":
+    if data["case"].get("kind") in ("xfail", "xfail-stack"):
         from .. import xfailfam
         return xfailfam.replay(data["case"], "C04")
     c = data["case"]["conf"]
